@@ -11,6 +11,7 @@ mod prng;
 mod w1;
 mod w2;
 mod w3;
+mod w3b;
 mod w5;
 mod elem;
 mod vut;
@@ -35,8 +36,15 @@ static C08: w3::W3Check = w3::W3Check { id: "C08" };
 static C20: w3::W3Check = w3::W3Check { id: "C20" };
 static C05: w2::W2Check = w2::W2Check { id: "C05" };
 
+#[global_allocator]
+static ALLOC: w3b::CountingAlloc = w3b::CountingAlloc;
+
+static C14: w3b::C14Check = w3b::C14Check;
+static C16: w3b::C16Check = w3b::C16Check;
+static C17: w3b::C17Check = w3b::C17Check;
+
 fn checks() -> Vec<&'static dyn Check> {
-    vec![&C01, &C02, &C13, &C05, &C12B, &C03, &C04, &C07, &C08, &C20, &C09, &C10, &C11]
+    vec![&C01, &C02, &C13, &C05, &C12B, &C03, &C04, &C07, &C08, &C20, &C09, &C10, &C11, &C14, &C16, &C17]
 }
 
 fn parse_tier(s: &str) -> Tier {
